@@ -28,6 +28,12 @@ pub struct GenCfg {
     pub extract_cmds: bool,
     pub faults: bool,
     pub big_costs: bool,
+    /// never produce empty container literals ((vec-of), (set-of), ..)
+    pub no_empty_containers: bool,
+    /// no top-level (subsume ..) / (delete ..) commands (rule heads may still contain them)
+    pub no_toplevel_subsume_delete: bool,
+    /// a constructor / relation never mixes two different container sorts in its arguments
+    pub one_container_sort_per_table: bool,
 }
 
 impl Default for GenCfg {
@@ -54,6 +60,9 @@ impl Default for GenCfg {
             extract_cmds: false,
             faults: false,
             big_costs: false,
+            no_empty_containers: false,
+            no_toplevel_subsume_delete: false,
+            one_container_sort_per_table: false,
         }
     }
 }
@@ -195,6 +204,18 @@ impl<'a, 'b> Gen<'a, 'b> {
         if self.cfg.combined && sig.rulesets.len() >= 2 && s.chance(1, 2) {
             sig.combined.push(("comb".into(), vec![0, 1]));
         }
+        if self.cfg.one_container_sort_per_table {
+            for f in sig.funcs.iter_mut() {
+                let first = f.args.iter().find(|a| matches!(a, Ty::Cont(_))).cloned();
+                if let Some(first) = first {
+                    for a in f.args.iter_mut() {
+                        if matches!(a, Ty::Cont(_)) {
+                            *a = first.clone();
+                        }
+                    }
+                }
+            }
+        }
         self.closed = vec![true; 1 + sig.rulesets.len()];
         self.has_rules = vec![false; 1 + sig.rulesets.len()];
         self.sig = sig;
@@ -252,7 +273,10 @@ impl<'a, 'b> Gen<'a, 'b> {
             }
             Ty::Cont(ci) => {
                 let decl = self.sig.conts[*ci].clone();
-                let n = self.src.below(4);
+                let mut n = self.src.below(4);
+                if self.cfg.no_empty_containers {
+                    n = n.max(1);
+                }
                 let mut elems = vec![];
                 for _ in 0..n {
                     elems.push(self.ground_of(&decl.elem, pool)?);
@@ -366,7 +390,10 @@ impl<'a, 'b> Gen<'a, 'b> {
                 if let Some(v) = self.pick_var(env, ty) {
                     return Term::Var(v);
                 }
-                let n = self.src.below(2);
+                let mut n = self.src.below(2);
+                if self.cfg.no_empty_containers {
+                    n = n.max(1);
+                }
                 let mut elems = vec![];
                 for _ in 0..n {
                     elems.push(self.grounded_elem(env, &decl.elem, depth + 1));
@@ -477,7 +504,10 @@ impl<'a, 'b> Gen<'a, 'b> {
             Ty::Cont(ci) => {
                 // container built from bound element vars
                 let decl = self.sig.conts[*ci].clone();
-                let n = self.src.below(3);
+                let mut n = self.src.below(3);
+                if self.cfg.no_empty_containers {
+                    n = n.max(1);
+                }
                 let elems = (0..n).map(|_| self.head_arg(env, &decl.elem)).collect();
                 Term::Prim(cont_ctor(decl.kind).into(), elems)
             }
@@ -688,8 +718,8 @@ impl<'a, 'b> Gen<'a, 'b> {
             7,
             if rels.is_empty() { 0 } else { 5 },
             if funcs.is_empty() { 0 } else { 4 },
-            if self.cfg.subsume { 2 } else { 0 },
-            if self.cfg.delete { 2 } else { 0 },
+            if self.cfg.subsume && !self.cfg.no_toplevel_subsume_delete { 2 } else { 0 },
+            if self.cfg.delete && !self.cfg.no_toplevel_subsume_delete { 2 } else { 0 },
             if self.cfg.containers { 5 } else { 0 },
         ];
         match self.src.pick_weighted(&w) {
